@@ -351,3 +351,21 @@ End RerScale.
 
 Lemma dom_data_cols cr data : dom_data data -> dom_cols cr data.
 Proof. intros H t. now apply col_at_dom. Qed.
+
+(** since fix c3bd83b the step functions only need non-negative columns *)
+Lemma nonneg_cols cr data : nonneg_data data -> dom_cols cr data.
+Proof. intros H t. apply col_ok_dom. now apply col_at_ok. Qed.
+
+Lemma nonneg_map_vals f data : (forall v, Forall (fun x => 0 <= x) v -> Forall (fun x => 0 <= x) (f v)) ->
+  nonneg_data data -> nonneg_data (map_vals f data).
+Proof.
+  intros Hf H. unfold nonneg_data, map_vals in *. rewrite Forall_forall in *. intros e He Ho. apply in_map_iff in He as (e0 & <- & H0).
+  rewrite e_vals_set. apply Hf. apply (H e0 H0). destruct e0; try reflexivity. discriminate Ho.
+Qed.
+
+Lemma nonneg_scale k data : 0 <= k -> nonneg_data data -> nonneg_data (scale_data k data).
+Proof.
+  intros K. apply nonneg_map_vals. intros v Hv. unfold vscale. apply Forall_forall. intros x Hx. apply in_map_iff in Hx as (y & <- & Hy).
+  rewrite Forall_forall in Hv. apply Qc_le_0_mul; [exact K|now apply Hv].
+Qed.
+
